@@ -423,6 +423,13 @@ def _ds_exprs(dist, p):
     # free parameters whose initial values are the parameters (the helper validates the initial
     # values) and which are moved to the same values through the dictionary
     out.append(('free Beta', fn(x, *[Beta(nm, v, None, None, 0) for nm, v in zip(names, pf)]), dict(zip(names, pf))))
+    # free parameters built at OTHER (admissible) starting values and given their real values at evaluation time: the
+    # helper is a function of the values it is evaluated at
+    start = {'normal': lambda q: [q[0] + 1.0, 1.0 if q[1] != 1.0 else 2.0], 'lognormal': lambda q: [q[0] + 1.0, 1.0 if q[1] != 1.0 else 2.0],
+             'logistic': lambda q: [q[0] + 1.0, 1.0 if q[1] != 1.0 else 2.0], 'uniform': lambda q: [q[0] - 1.0, q[1] + 1.0],
+             'triangular': lambda q: [q[0] - 1.0, q[1] + 1.0, q[2]]}[dist](pf)
+    names2 = [f'q{j + 1}' for j in range(len(pf))]
+    out.append(('free Beta built at other starting values', fn(x, *[Beta(nm, v, None, None, 0) for nm, v in zip(names2, start)]), dict(zip(names2, pf))))
     return out
 
 
